@@ -181,8 +181,9 @@ Definition getby_intervals (g : group) (bins : list Z) : list (nat * option grou
 (* g.restrict(ep) and g.get(a, b): member-wise, support given, members not restricted again *)
 Definition g_restrict (g : group) (ep : iset) : option group :=
   regroup (map_members (fun m => ts_restrict m ep) (g_entries g)) (Some ep) true (g_hastag g).
+(* start > end: the ValueError comes from the first member's get; a group without members returns itself *)
 Definition g_get (g : group) (a b : Z) : option group :=
-  if b <? a then None
+  if (b <? a) && negb (match g_entries g with [] => true | _ => false end) then None
   else regroup (map_members (fun m => ts_get m a b) (g_entries g)) (Some (g_sup g)) true (g_hastag g).
 
 (* ------------------------------------------------------------------ *)
